@@ -1,7 +1,7 @@
 """C03 — range streams return exactly the keys within the bounds, in order (structural part)."""
 import itertools
 from paths import explore
-from sym import fmt, walk
+from sym import bool_fold, fmt, walk
 from rules.common import path_calls, arg_loc, ret_kind
 from rules import streams
 from rules.streams import norm, is_call
@@ -166,7 +166,7 @@ def r03_3(ctx):
                       'exceeded_by for %s bound with key %s bound yields %s, contract %s' % (vname, ordv, sorted(outs), want), fn=f)
     g = lib.fn('raw::Bound::is_inclusive')
     for vname in ('Included', 'Excluded', 'Unbounded'):
-        outs = {p.ret()[1] if p.ret()[0] == 'const' else None for p in explore(g, oracle=bound_oracle(g, vi[vname], 'eq'), max_visits=1) if p.end == 'return'} if g else set()
+        outs = {bool_fold(p.ret())[1] if bool_fold(p.ret())[0] == 'const' else None for p in explore(g, oracle=bound_oracle(g, vi[vname], 'eq'), max_visits=1) if p.end == 'return'} if g else set()
         ctx.check(R, outs == {int(vname != 'Excluded')}, 'is_inclusive:' + vname, 'is_inclusive(%s) = %s' % (vname, sorted(outs, key=str)), fn=g)
     h = lib.fn('raw::Bound::is_empty')
     for vname, emp in (('Included', 0), ('Included', 1), ('Excluded', 0), ('Excluded', 1), ('Unbounded', 0)):
